@@ -195,7 +195,7 @@ def work(ctx, tier):
     # 2. random scenarios, all features
     nrand = (6000 if tier == "quick" else 120000) // ctx.nshards * 1
     for k in range(nrand):
-        sc = gen.rand_scenario(rng, p_special=0.03, specials=("abort",), ncalls=(1, 2), placements=(k % 3 == 0), p_exc_same=0.2, p_via_config=0.2, p_res_none=0.15, p_via_attrs=0.25)
+        sc = gen.rand_scenario(rng, p_special=0.03, specials=("abort",), ncalls=(1, 2), placements=(k % 3 == 0), p_exc_same=0.2, p_via_config=0.2, p_res_none=0.15, p_via_attrs=0.25, p_attempt_timeout=0.2)
         for e in common.pick_entries(rng, rig.ENTRIES, 3):
             _one(ctx, sc, e, stats)
         ctx.inc("random_scenarios")
